@@ -7,6 +7,9 @@ from pv.expr import Ctx, guard_facts, key_contains, key_subst
 from pv.facts import AnalysisBroken, strip_targs
 from pv.formula import Formula
 from pv.loops import enclosing_loops, loop_shape, no_early_exit
+from pv.cfg import acyclic_paths
+from pv.paths import feasible, nodes_on_path, path_facts
+from pv.symenv import env_along, value_key
 from checks import lehmann as lh
 from checks.lehmann import fld, THIS
 from checks.c20 import fact_str
@@ -244,43 +247,77 @@ def body(chk, db, cfgname):
     chi = F.name_atom(("op", "()", fld(V4 + "::Chi4"), a1, a2, a3), "chi")
     G13, G24, G14, G23 = g("G13", a1), g("G24", a2), g("G14", a1), g("G23", a2)
     site = V4 + "::value"
-    contribs = []
-    val = None
-    for d, dv in vctx.decls.items():
-        if dv.get("init") is not None and F.equal(F.conv(vctx.key(dv["init"])), chi):
-            val = ("var", d, dv["n"])
+    # Decided path by path: the function touches (n1, n2, n3) only through comparisons and as arguments, so the five
+    # equality patterns of the triple are an exhaustive case table.  For every pattern, every feasible path to a return
+    # must return chi + [n1==n3] beta G13(n1) G24(n2) - [n2==n3] beta G14(n1) G23(n2) (arguments compared modulo the
+    # pattern's equalities).  An early return, a dropped term or a term under the wrong test all show as a (pattern, path).
+    def eqf(x, y):
+        return ("==",) + tuple(sorted([x, y], key=repr))
+
+    def nef(x, y):
+        return ("!=",) + tuple(sorted([x, y], key=repr))
+    PATTERNS = [
+        ("n1, n2, n3 all different", [nef(a1, a3), nef(a2, a3), nef(a1, a2)], {}, 0, 0),
+        ("n1 == n3 != n2", [eqf(a1, a3), nef(a2, a3), nef(a1, a2)], {a3: a1}, 1, 0),
+        ("n2 == n3 != n1", [nef(a1, a3), eqf(a2, a3), nef(a1, a2)], {a3: a2}, 0, 1),
+        ("n1 == n2 != n3", [nef(a1, a3), nef(a2, a3), eqf(a1, a2)], {}, 0, 0),
+        ("n1 == n2 == n3", [eqf(a1, a3), eqf(a2, a3), eqf(a1, a2)], {a3: a1, a2: a1}, 1, 1),
+    ]
     probs = []
-    if val is None:
-        probs.append("the value does not start from Chi4(n1,n2,n3)")
+    undecided = None
+    if any(n["k"] in ("for", "while", "do", "forrange") for _, n in v.walk(v.body)):
+        undecided = "value() contains a loop (form not analysed)"
     else:
-        seen = {"13": None, "23": None}
-        for mj in vctx.mut.get(val[1], []):
-            mn = v.nodes[mj]
-            if mn["k"] == "call" and mn.get("op") in ("+=", "-="):
-                rhs = F.conv(vctx.key(mn["args"][1]))
-                sgn = 1 if mn["op"] == "+=" else -1
-                fa = vat.get(v.cfg.pos1(mj), frozenset())
-                e13 = entails(fa, ("==",) + tuple(sorted([a1, a3], key=repr)))
-                e23 = entails(fa, ("==",) + tuple(sorted([a2, a3], key=repr)))
-                if e13 and not e23 and F.equal(sgn * rhs, beta * G13 * G24):
-                    seen["13"] = mj
-                elif e23 and not e13 and F.equal(sgn * rhs, -beta * G14 * G23):
-                    seen["23"] = mj
-                else:
-                    probs.append("contribution %s%s under {%s} is not one of the two documented disconnected terms" % ("+" if sgn > 0 else "-", rhs, ", ".join(["n1==n3"] * e13 + ["n2==n3"] * e23)))
-            else:
-                probs.append("unexpected modification of the accumulated value")
-        if seen["13"] is None:
-            probs.append("missing +beta*G13(n1)*G24(n2) under n1 == n3")
-        if seen["23"] is None:
-            probs.append("missing -beta*G14(n1)*G23(n2) under n2 == n3")
-        rets = [j for j, n in v.walk(v.body) if n["k"] == "return" and vctx.key(n["sub"], inline=False)[:2] == val[:2]]
-        if not rets:
-            probs.append("the accumulated value is not returned")
-    if probs:
-        r4.bad(site, v.loc(), "; ".join(probs), cfgname)
+        vpaths = acyclic_paths(v.cfg, v.cfg.entry, {v.cfg.exit})
+        if not vpaths or len(vpaths) > 512:
+            undecided = "the paths of value() cannot be enumerated"
+    if undecided is None:
+        pinfo = []
+        for pth in vpaths:
+            rets = [j for j in nodes_on_path(v, pth) if v.nodes[j]["k"] == "return"]
+            if len(rets) != 1 or v.nodes[rets[0]].get("sub") is None:
+                continue
+            envs = env_along(v, vctx, pth)
+            try:
+                rk = value_key(v, vctx, envs, v.nodes[rets[0]]["sub"], at_node=rets[0])
+            except AnalysisBroken as e_:
+                undecided = str(e_)
+                break
+            pinfo.append((pth, path_facts(v, vctx, pth), rets[0], rk))
+        if undecided is None and not pinfo:
+            undecided = "no returning path found in value()"
+    if undecided is None:
+        for pname, pf_, sub_, i13, i23 in PATTERNS:
+            def sb(k, sub_=sub_):
+                return key_subst(k, lambda x: sub_.get(x))
+            exp_ = F.conv(sb(("op", "()", fld(V4 + "::Chi4"), a1, a2, a3)))
+            if i13:
+                exp_ = exp_ + beta * F.conv(sb(("op", "()", fld(V4 + "::G13"), a1))) * F.conv(sb(("op", "()", fld(V4 + "::G24"), a2)))
+            if i23:
+                exp_ = exp_ - beta * F.conv(sb(("op", "()", fld(V4 + "::G14"), a1))) * F.conv(sb(("op", "()", fld(V4 + "::G23"), a2)))
+            nfeas = 0
+            for pth, pfacts, rj, rk in pinfo:
+                if not feasible(set(pfacts) | set(pf_)):
+                    continue
+                nfeas += 1
+                try:
+                    got = F.conv(sb(rk))
+                except AnalysisBroken as e_:
+                    undecided = str(e_)
+                    break
+                if not F.equal(got, exp_):
+                    probs.append("for %s the path returning at line %s yields %s instead of %s" % (pname, v.loc(rj).rsplit(":", 1)[-1], F.show(got), F.show(exp_)))
+            if undecided is not None:
+                break
+            if nfeas == 0:
+                undecided = "no feasible returning path for the pattern %s" % pname
+                break
+    if undecided is not None:
+        r4.unknown(site, v.loc(), undecided, cfgname)
+    elif probs:
+        r4.bad(site, v.loc(), "; ".join(sorted(set(probs))[:4]), cfgname)
     else:
-        r4.ok(site, v.loc(), "chi(n1,n2,n3) + [n1==n3] beta G13(n1)G24(n2) - [n2==n3] beta G14(n1)G23(n2)", cfgname)
+        r4.ok(site, v.loc(), "chi(n1,n2,n3) + [n1==n3] beta G13(n1)G24(n2) - [n2==n3] beta G14(n1)G23(n2) on every path, for each of the 5 equality patterns of (n1,n2,n3) (%d paths)" % len(pinfo), cfgname)
     o = db.fn(V4 + "::operator()", nparams=3)
     octx2 = Ctx(o, db)
     b1, b2, b3 = [("param", p["d"], p["n"]) for p in o.params]
